@@ -1,3 +1,3 @@
 INIT Init
 NEXT Next
-INVARIANTS C03_StressOwn C03_OwnToken C03_AtMostOneCaller C03_DupTokenRejected C03_RejectedOnlyIfDup C03_AnswerCompletes C03_AllReturned C03_TablesEmpty
+INVARIANTS C03_StressOwn C03_OwnToken C03_AtMostOneCaller C03_NotAlsoToHandler C03_DupTokenRejected C03_RejectedOnlyIfDup C03_AnswerCompletes C03_AllReturned C03_TablesEmpty
